@@ -8,6 +8,6 @@ rm -rf /verif/work/evidence.keep; cp -r /verif/evidence /verif/work/evidence.kee
 for p in "$@"; do
   (cd /verif && ./check "$p" --tier quick 2>&1 | grep -E "VIOLATION|KNOWN|quick:" | cut -c1-420)
 done
-git -C /repo checkout -- .
+git -C /repo checkout -- . && git -C /repo clean -fdq src tests
 rm -rf /verif/evidence; mv /verif/work/evidence.keep /verif/evidence
 git -C /repo status --short | head -3
